@@ -11,6 +11,7 @@ import (
 	"math"
 	"sort"
 	"sync"
+	"sync/atomic"
 )
 
 // NewListConvert creates a list containing the given elements if the elements
@@ -338,20 +339,52 @@ func recoverProducer(p iterator.Producer[Value]) iterator.Producer[Value] {
 	}
 }
 
-// rethrowConsumerPanic returns a producer which catches a panic of the consumer and raises it
-// again in the goroutine which iterates the producer. It is used if the given producer may call
-// the consumer from another goroutine, where a panic would otherwise terminate the process.
-func rethrowConsumerPanic(p iterator.Producer[Value]) iterator.Producer[Value] {
+// autoParallelStage creates a stage that may decide to process its items in parallel
+// (iterator.MapAuto, iterator.FilterAuto). The build function gets the source to use and a
+// function it has to call whenever a new worker function is created. Two things are taken
+// care of, which both arise because in parallel mode the consumer is called from a collector
+// goroutine:
+//   - A panic of the consumer is caught and raised again in the goroutine which iterates
+//     the stage, where it is recovered like any other panic.
+//   - If the consumer stops the iteration early, the parallel workers are blocked forever
+//     because nobody reads their results anymore. So in parallel mode the source is stopped
+//     instead, and the few items still in flight are discarded.
+func autoParallelStage(source iterator.Producer[Value], build func(source iterator.Producer[Value], workerCreated func()) iterator.Producer[Value]) iterator.Producer[Value] {
 	return func(yield iterator.Consumer[Value]) {
+		var workers atomic.Int32
+		var stopped atomic.Bool
 		var consumerPanic any
-		p(func(v Value, err error) (cont bool) {
+		// more than one worker function means the parallel mode was started
+		stop := func() bool {
+			if workers.Load() > 1 {
+				stopped.Store(true)
+				return true
+			}
+			return false
+		}
+		stoppableSource := func(y iterator.Consumer[Value]) {
+			source(func(v Value, err error) bool {
+				if stopped.Load() {
+					return false
+				}
+				return y(v, err)
+			})
+		}
+		stage := build(stoppableSource, func() { workers.Add(1) })
+		stage(func(v Value, err error) (cont bool) {
+			if stopped.Load() {
+				return true
+			}
 			defer func() {
 				if rec := recover(); rec != nil {
 					consumerPanic = rec
-					cont = false
+					cont = stop()
 				}
 			}()
-			return yield(v, err)
+			if yield(v, err) {
+				return true
+			}
+			return stop()
 		})
 		if consumerPanic != nil {
 			panic(consumerPanic)
@@ -367,26 +400,29 @@ func (l *List) Accept(sta funcGen.Stack[Value]) (*List, error) {
 	return NewListFromIterable(func(st funcGen.Stack[Value]) iterator.Producer[Value] {
 		// If the filter runs in parallel, the consumer of this list runs concurrently to the
 		// producer of the source list. So they must not share the stack.
-		return rethrowConsumerPanic(iterator.FilterAuto[Value](l.iterable(funcGen.NewEmptyStack[Value]()), func() func(v Value) (bool, error) {
-			s := funcGen.NewEmptyStack[Value]()
-			return func(v Value) (acc bool, err error) {
-				// may run in a worker goroutine
-				defer func() {
-					if rec := recover(); rec != nil {
-						acc = false
-						err = panicToError(rec)
+		return autoParallelStage(l.iterable(funcGen.NewEmptyStack[Value]()), func(source iterator.Producer[Value], workerCreated func()) iterator.Producer[Value] {
+			return iterator.FilterAuto[Value](source, func() func(v Value) (bool, error) {
+				workerCreated()
+				s := funcGen.NewEmptyStack[Value]()
+				return func(v Value) (acc bool, err error) {
+					// may run in a worker goroutine
+					defer func() {
+						if rec := recover(); rec != nil {
+							acc = false
+							err = panicToError(rec)
+						}
+					}()
+					eval, err := f.Eval(s, v)
+					if err != nil {
+						return false, err
 					}
-				}()
-				eval, err := f.Eval(s, v)
-				if err != nil {
-					return false, err
+					if accept, ok := eval.(Bool); ok {
+						return bool(accept), nil
+					}
+					return false, fmt.Errorf("function in accept does not return a bool")
 				}
-				if accept, ok := eval.(Bool); ok {
-					return bool(accept), nil
-				}
-				return false, fmt.Errorf("function in accept does not return a bool")
-			}
-		}))
+			})
+		})
 	}), nil
 }
 
@@ -398,19 +434,22 @@ func (l *List) Map(sta funcGen.Stack[Value]) (*List, error) {
 	return NewListFromSizedIterable(func(st funcGen.Stack[Value]) iterator.Producer[Value] {
 		// If the mapping runs in parallel, the consumer of this list runs concurrently to the
 		// producer of the source list. So they must not share the stack.
-		return rethrowConsumerPanic(iterator.MapAuto[Value, Value](l.iterable(funcGen.NewEmptyStack[Value]()), func() func(i int, v Value) (Value, error) {
-			s := funcGen.NewEmptyStack[Value]()
-			return func(i int, v Value) (val Value, err error) {
-				// may run in a worker goroutine
-				defer func() {
-					if rec := recover(); rec != nil {
-						val = nil
-						err = panicToError(rec)
-					}
-				}()
-				return f.Eval(s, v)
-			}
-		}))
+		return autoParallelStage(l.iterable(funcGen.NewEmptyStack[Value]()), func(source iterator.Producer[Value], workerCreated func()) iterator.Producer[Value] {
+			return iterator.MapAuto[Value, Value](source, func() func(i int, v Value) (Value, error) {
+				workerCreated()
+				s := funcGen.NewEmptyStack[Value]()
+				return func(i int, v Value) (val Value, err error) {
+					// may run in a worker goroutine
+					defer func() {
+						if rec := recover(); rec != nil {
+							val = nil
+							err = panicToError(rec)
+						}
+					}()
+					return f.Eval(s, v)
+				}
+			})
+		})
 	}, l.size), nil
 }
 
